@@ -402,8 +402,12 @@ func DeleteMetricsSegmentData(mmetaFile string, metricSegmentsToDelete map[strin
 	for _, metricsSegmentMeta := range metricSegmentsToDelete {
 		err := segmetadata.DeleteMetricsSegmentKey(metricsSegmentMeta.MSegmentDir)
 		if err != nil {
-			log.Errorf("deleteMetricsSegmentData: failed to delete metrics segment. Error:%v", err)
-			return
+			// The in-memory metadata does not know this segment (yet), e.g. it was rotated after the
+			// last metadata refresh. Its files and its metrics meta entry still have to go, and so do
+			// the other segments: returning here left all of them on disk, with the ones already
+			// handled above missing from the in-memory metadata
+			log.Warnf("deleteMetricsSegmentData: metrics segment %v is not in the in-memory metadata: %v",
+				metricsSegmentMeta.MSegmentDir, err)
 		}
 
 		// Delete segment files from s3
